@@ -254,6 +254,10 @@ def check(data, start, end, opts, map_addrs=None, map_fmt=None, ini=(), dictiona
 FOLLOWERS = ((0x20, 0xFA, 0xC9, 0x3E, 0x18, 0x32, 0x00, 0x5C, 0xC9),
              (0x05, 0x00, 0x20, 0xF8, 0xC9, 0x21, 0x00, 0x5C, 0x36, 0xC9, 0xC9))
 
+PROMOTED_CALLERS = ((0xCD,), (0xCA,), (0xC3,), (0xC4,))                     # CALL / JP Z / JP / CALL NZ to the target block
+PROMOTED_TARGETS = ((0x00, 0x00), (0x3E, 0x01), (0x21, 0x00, 0x00), (0xAF,))    # no terminal instruction: falls through
+PROMOTED_ROUTINES = ((0xC9,), (0x3E, 0x02, 0xC9), (0x06, 0x03, 0x10, 0xFE, 0xC9), (0x18, 0x00, 0xC9))
+
 OPTION_SETS = ((), ('-C',), ('-r',), ('-h',), ('-l',), ('-C', '-r'))
 INI_SETS = (('TextMinLengthCode=3',), ('TextMinLengthCode=1',), ('TextMinLengthCode=2',), ('TextMinLengthData=1',), ('TextMinLengthData=6',), ('TextChars=Helo',))
 
@@ -290,6 +294,14 @@ def cases(tier):
                 (0xED, 0x43, 0x00), (0xDD, 0xCB), (0xDD, 0xCB, 0x01), (0xCB,), (0xED,), (0xDD,), (0xDD, 0x36), (0xDD, 0x36, 0x01), (0x32, 0x00), (0xD3,), (0xCF,)):
         for lead in ((), (0x00,), (0xC9,), (0xAF, 0x3C)):
             yield ('top', ('raw', lead + cut))
+    # an unexecuted block that executed code CALLs/JPs to and that falls through into an executed block made of two
+    # back-to-back routines, the second of which is reached only indirectly (it is in the map, nothing refers to it)
+    for caller in range(len(PROMOTED_CALLERS)):
+        for target in range(len(PROMOTED_TARGETS)):
+            for ra in range(len(PROMOTED_ROUTINES)):
+                for rb in range(len(PROMOTED_ROUTINES)):
+                    yield ('promoted', (caller, target, ra, rb))
+    # arbitrary maps: every subset of an 8-byte window on fixed images
     fixed = [(0, 8, 7), (15, 0), (7, 9, 13), (13, 14, 0, 18), (16, 1), (19, 20, 11, 0), (4, 0, 8, 19), (4, 8, 8, 8), (1, 8, 19), (21, 8, 19), (21, 7, 12), (21, 8, 7)]
     for fi, seq in enumerate(fixed):
         for mask in range(256):
@@ -340,6 +352,12 @@ def run_one(kind, spec, tier):
                         yield ('trace/{}/entry{}/{}/{}{}'.format(names, ei, fmt, ' '.join(opts) or '-', '/tail' if tail else ''),
                                {'kind': 'map', 'seq': list(seq), 'start': ORG, 'end': end, 'opts': list(opts), 'map': addrs, 'fmt': fmt, 'tail': tail,
                                 'no_skool': ovl}, p, n)
+                # the same map with a range that starts at the second token (START not a multiple of 8, executed
+                # addresses just below it in the map)
+                if ei == 0 and len(seq) > 1 and starts[1] < end and any(a >= starts[1] for a in addrs):
+                    p, n = check(data, starts[1], end, (), addrs, fmt, no_skool=ovl)
+                    yield ('trace/{}/entry0/{}/from-second-token'.format(names, fmt),
+                           {'kind': 'map', 'seq': list(seq), 'start': starts[1], 'end': end, 'opts': [], 'map': addrs, 'fmt': fmt, 'no_skool': ovl}, p, n)
     elif kind == 'inline':
         inl, tailcode = spec
         c_addr = ORG + 10
@@ -381,6 +399,27 @@ def run_one(kind, spec, tier):
                     yield ('top/{}/map{}/{}/{}'.format(name, mi, fmt, ' '.join(opts) or '-'),
                            {'kind': 'map', 'raw': list(data), 'org': org, 'start': org, 'end': 65536, 'opts': list(opts), 'map': addrs, 'fmt': fmt,
                             'no_skool': ovl, 'tiling_only': (mi == 0 and addrs != trace)}, p, n)
+    elif kind == 'promoted':
+        ci, ti, ra, rb = spec
+        t_addr = ORG + 4
+        head = PROMOTED_CALLERS[ci] + (t_addr & 0xFF, t_addr >> 8) + (0xC9,)        # caller ; RET
+        target = PROMOTED_TARGETS[ti]
+        a_addr = t_addr + len(target)
+        b_addr = a_addr + len(PROMOTED_ROUTINES[ra])
+        data = bytes(head + target + PROMOTED_ROUTINES[ra] + PROMOTED_ROUTINES[rb] + (0x00, 0x00, 0x00))
+        end = ORG + len(data)
+        # executed: the caller's path (flags clear: JP Z is not taken; CALL/JP/CALL NZ enter the target, which then
+        # degenerates to an ordinary trace unless removed below), routine A and routine B from their own entries
+        addrs = sorted(set(exec_trace(data, ORG, ORG, end) + exec_trace(data, a_addr, ORG, end) + exec_trace(data, b_addr, ORG, end)))
+        if PROMOTED_CALLERS[ci][0] != 0xC4:
+            # the recording stopped short of the target block: it is referred to by executed code but not executed
+            addrs = [a for a in addrs if not t_addr <= a < a_addr]
+        ovl = self_overlapping(data, addrs, end)
+        for fmt in MAP_FORMATS:
+            for opts in ((), ('-C',)):
+                p, n = check(data, ORG, end, opts, addrs, fmt, no_skool=ovl)
+                yield ('promoted/{}/{}/{}/{}/{}/{}'.format(ci, ti, ra, rb, fmt, ' '.join(opts) or '-'),
+                       {'kind': 'map', 'raw': list(data), 'start': ORG, 'end': end, 'opts': list(opts), 'map': addrs, 'fmt': fmt, 'no_skool': ovl}, p, n)
     elif kind == 'opsweep':
         prefix, op, fi = spec
         data = bytes((0xDD, 0x2E, 0x08, 0x7E, 0x23) + tuple(prefix) + (op,) + FOLLOWERS[fi])
@@ -434,13 +473,13 @@ def run(tier, seed):
     meta = dict(
         rule='images = all token sequences of length <= {} over a 25-token alphabet x ranges (whole, first token dropped, last byte dropped) x options '
              '(none,-C,-r,-h,-l,-C -r; TextMinLength*/TextChars/Dictionary on sequences <= 2); execution-trace code maps from every token start in 5 '
-             'map formats for sequences <= {}; every subset (256) of an 8-byte window as an arbitrary map on 12 fixed images; every opcode byte after 7 prefixes (none, DD, FD, ED, CB, DDCB d, FDCB d) inside a routine with 2 continuations x (none,-C); images ending at 65536 (token sequences <= 2, 22 cut-off instructions x 4 leads) x (none,-C,-r,-h). states = distinct token '
+             'map formats for sequences <= {}; every subset (256) of an 8-byte window as an arbitrary map on 12 fixed images; every opcode byte after 7 prefixes (none, DD, FD, ED, CB, DDCB d, FDCB d) inside a routine with 2 continuations x (none,-C); 256 promoted-block images (4 callers x 4 fall-through target blocks x 4 x 4 back-to-back routines, the target unexecuted) x 5 map formats x (none,-C); trace maps also with the range starting at the second token; images ending at 65536 (token sequences <= 2, 22 cut-off instructions x 4 leads) x (none,-C,-r,-h). states = distinct token '
              'sets'.format(3 if tier == 'quick' else 4, 2 if tier == 'quick' else 3),
         exhaustive=True,
         bound='token sequences <= {}'.format(3 if tier == 'quick' else 4),
         assumptions=['the generated control file is fed to sna2skool with default options (sna2ctl -r already writes the RST argument sub-blocks)',
                      'for arbitrary (non-trace) address sets only termination and tiling are required (as the property states); trace maps get every clause, except that a program whose code reachable from the trace (both outcomes of each branch) overlaps itself is not fed to sna2skool (no control file can satisfy both clauses for it)'],
-        required_guards=['plain', 'trace', 'subset', 'inline', 'opsweep', 'top', 'fed_to_sna2skool'],
+        required_guards=['plain', 'trace', 'subset', 'inline', 'opsweep', 'top', 'promoted', 'fed_to_sna2skool'],
     )
     return stats, meta
 
